@@ -5,6 +5,11 @@
 // definitions whose TokenParser is a stub: every call is counted and logged, answers are symbolic.  panic_utils::catch_unwind is
 // replaced by a plain call (panics cannot be modelled: Kani treats them as failures), anyhow!/bail!/ensure! build no message.
 use super::*;
+// explicit imports: the harness must not depend on which names the real module happens to import
+#[allow(unused_imports)]
+use crate::api::StopReason;
+#[allow(unused_imports)]
+use ::toktrie::{SimpleVob, TokenId};
 
 #[derive(Debug, Clone, Copy, PartialEq)]
 pub struct MockErr;
